@@ -5,7 +5,10 @@ From Octo Require Export ExprCases.
 (* column types, the logical expression, what the REAL typechecker produced (as pexpr) or that it panicked,
    evaluations: (variable frames, observed outcome) *)
 Inductive c08_case :=
-| C8 (env : list sty) (le : option lexpr) (tc_obs : tcres pexpr) (runs : list (vctx * outcome value)).
+| C8 (env : list sty) (le : option lexpr) (tc_obs : tcres pexpr) (runs : list (vctx * outcome value))
+(* query slice: the schema a typechecked plan reports (what --describe shows), as kind sets, and the records
+   the materialised plan produced *)
+| C8Q (schema : list sty) (rows : list (list value)).
 
 (* correspondence 1: the typechecker model produces the physical expression the implementation produced
    (same shape, same descriptor, same static type at every node; types compared as kind sets) *)
@@ -13,6 +16,7 @@ Definition c08_tie_tc (c : c08_case) : bool :=
   match c with
   | C8 env (Some le) tc_obs _ => tcres_eqb (tc type_inter_aliasing function_table env le) tc_obs
   | C8 _ None _ _ => true
+  | C8Q _ _ => true
   end.
 
 (* correspondence 2: the evaluation model agrees on every run *)
@@ -37,5 +41,6 @@ Definition c08_spec_type (c : c08_case) : bool :=
       forallb (fun r => if ctx_conforms (fst r) env
                         then match snd r with Ok v => has_type v (ptype pe) | _ => true end
                         else true) runs
+  | C8Q schema rows => forallb (fun r => row_conforms r schema) rows
   | _ => true
   end.
